@@ -36,6 +36,10 @@ def encoded_programs(draw):
     if draw(st.integers(0, 9)) < 5:
         shebang = draw(st.sampled_from(SHEBANGS))
         r = draw(st.integers(0, 9))
+        if r == 2:
+            # characters that str.splitlines() treats as line boundaries but the tokenizer does not
+            odd = ['\x0c', '\x0b', '\x1c', '\x1d', '\x1e'] + (['\x85', '\u2028', '\u2029'] if codec == 'utf-8' else [])
+            shebang += ' -x' + draw(st.sampled_from(odd)) + 'tail'
         if r == 0:
             shebang += ' ' + draw(st.sampled_from(chars))  # non-ASCII byte in the shebang line
         elif r == 1 and decl.startswith('cookie'):
